@@ -6,7 +6,7 @@ CFG = dict(
     shard=30,
     search_rounds=1,
     search_n=400,
-    n=dict(quick=130, thorough=8000),
+    n=dict(quick=130, thorough=1560),
     rule="clusters of 8-40 identities per case run through the real name builders (GetLengthLimitedID directly with "
          "arbitrary prefix/limit, PolicyID.ID, Policy/Profile/EndpointChainName, PolicyGroup.ChainName, MakeUniqueID, "
          "NameForMainIPSet/NameForTempIPSet, nftables LegalizeSetName, NFLOG maybeHash/CalculateNFLOGPrefixStr, VethNameForWorkload, "
